@@ -13,7 +13,7 @@ from . import rollmodel as RM
 from .rollmodel import ROLL, RollLogFile
 
 PROPERTY = 'C13'
-TRUSTED = ['PyVC executor (DESIGN 2.3), z3 5.1.0', 'os / open / file objects: every call atomic; open(p, "wb") creates or truncates p; unlink of a missing file raises FileNotFoundError (T4)',
+TRUSTED = ['PyVC executor (DESIGN 2.3), z3 5.1.0', 're_logpath.match(name).group(1) is the microsecond stamp of a name built by fnm_from_dats', 'os / open / file objects: every call atomic; open(p, "wb") creates or truncates p; unlink of a missing file raises FileNotFoundError (T4)',
            'scan_logfiles: sets logfiles to the files on disk matching the pattern, sorted by stamp, and logfiles_size to their total (assumed contract)',
            'nobody but the one writer creates files matching a RollLog pattern; os.unlink of an existing file succeeds (T6)']
 ASSUMPTIONS = ['shape bound: 0..3 existing log files (stamps, sizes, budgets, record sizes and timestamps symbolic and unbounded)',
@@ -31,7 +31,7 @@ def make_log(ex, fs, N, open_write, read_pos, rdonly=False):
     prev_ts = prev_us = None
     for i in range(N):
         ts, us, size = z3.Real(f'ts{i}'), z3.Int(f'us{i}'), z3.Int(f'size{i}')
-        ex.assume(z3.And(size >= 0, us >= 0, z3.ToReal(us) <= ts * 1000000, ts * 1000000 < z3.ToReal(us) + 1))
+        ex.assume(z3.And(size >= 0, us >= 0, ts * 1000000 == z3.ToReal(us)))     # LogInv: a listed timestamp is exactly the stamp in the file name / 1_000_000
         if prev_ts is not None:
             ex.assume(z3.And(ts > prev_ts, us > prev_us))
         prev_ts, prev_us = ts, us
@@ -62,8 +62,10 @@ def log_inv(ex, me, fs, who=''):
     live = [f for f in fs.logs if f.f['exists'] is not False]
     add('every listed log file is the name of exactly one file on disk and vice versa (apart from external deletions)',
         len(lfs) <= len(live) + sum(1 for f in fs.logs if f.f.get('externally_deleted')) and all(any(l.path.f['us'] is f.f['us'] or z3.is_true(z3.simplify(l.path.f['us'] == f.f['us'])) for f in fs.logs) for l in lfs))
+    for l in lfs:
+        add('a listed timestamp is exactly the stamp in the file name / 1_000_000 (what scan_logfiles and seek derive from the name)', ex.toz(l.timestamp) * 1000000 == z3.ToReal(l.path.f['us']))
     for a, b in zip(lfs, lfs[1:]):
-        add('log files are listed in strictly increasing stamp order', z3.And(a.timestamp < b.timestamp, a.path.f['us'] < b.path.f['us']))
+        add('log files are listed in strictly increasing stamp order', z3.And(ex.toz(a.timestamp) < ex.toz(b.timestamp), a.path.f['us'] < b.path.f['us']))
     add('logfiles_size is the total of the listed sizes', me.f['logfiles_size'] == sum([l.size for l in lfs], z3.IntVal(0)))
     for l in lfs:
         f = [f for f in fs.logs if f.f['us'] is l.path.f['us']]
@@ -173,6 +175,9 @@ class WriterUnit(Unit):
             content = [open(os.path.join(d, f)).read() for f in files]
             log.close()
             lost = 6 - sum(c.count('record') for c in content)
+            if lost == 0:
+                from replay_drivers import rolllog_history
+                return rolllog_history.search(200, 0)
             return {'confirmed': lost > 0, 'inputs': {'file_size': 1, 'writes': 6, 'timestamp': ts, 'solver_model': m},
                     'observed': f'{len(files)} file(s) on disk holding {6 - lost} of 6 records: {content}', 'required': 'no roll-over ever overwrites an existing log file'}
         finally:
@@ -255,4 +260,49 @@ class RefreshUnit(Unit):
         return ex
 
 
-UNITS = [WriterUnit(), RefreshUnit()]
+class SeekTellUnit(Unit):
+    """seek(tell()) is the identity on the read position, for writable and read-only logs (real tell, real seek)"""
+    name = 'RollLog.seek o RollLog.tell'
+    targets = (f'{ROLL}::RollLog.seek', f'{ROLL}::RollLog.tell')
+    required_covers = ('seek(tell()) done',)
+    mutants = (
+        ('seek reopens at offset 0', f'{ROLL}::RollLog.seek', 'read_file.seek(seek_pos)', 'read_file.seek(0)', 'C13.seek_tell'),
+    )
+
+    def shapes(self, tier):
+        return [(N, idx, opened, rd) for N in (1, 2, 3) for idx in range(N + 1) for opened in ((False, True) if idx < N else (False,)) for rd in (False, True)]
+
+    def run(self, shape, dec):
+        N, idx, opened, rdonly = shape
+        ex = new_exec(dec, ROLL)
+        fs = RM.setup(ex)
+        me, files = make_log(ex, fs, N, False, (idx, opened), rdonly=rdonly)
+        off = me.f['read_file'].f['pos'] if isinstance(me.f['read_file'], Obj) else None
+        try:
+            pos = ex.call_closure(closure(ROLL, 'RollLog.tell'), [me], {})
+            ex.call_closure(closure(ROLL, 'RollLog.seek'), [me, pos], {})
+        except ExcSig as e:
+            ex.outcome = f'raise {e.cls}'
+            ex.oblige(f'C13.seek_tell: seek(tell()) raises {e.cls} ({e.origin})', False)
+            return ex
+        ex.outcome = 'return'
+        ex.cover('seek(tell()) done')
+        r, rf = me.f['read_idx'], me.f['read_file']
+        O = ex.oblige
+        if idx < N:
+            O('C13.seek_tell: seek(tell()) stays on the same file', r == idx)
+            if opened:
+                O('C13.seek_tell: ... at the same offset (no record is delivered twice, none is skipped)', isinstance(rf, Obj) and rf.f['target'] is fs.logs[idx] and rf.f['pos'] is off)
+            else:
+                O('C13.seek_tell: ... at its start when nothing of it was read yet', rf is None or (isinstance(rf, Obj) and rf.f['target'] is fs.logs[idx] and ex.eq(rf.f['pos'], 0) is True))
+        else:
+            O('C13.seek_tell: at the end of all logs seek(tell()) delivers nothing that was already delivered',
+              (r == N and rf is None) or (r == N - 1 and isinstance(rf, Obj) and rf.f['target'] is fs.logs[N - 1] and rf.f['pos'] is files[N - 1].size))
+        return ex
+
+    def replay(self, failure):
+        from replay_drivers import rolllog_history
+        return rolllog_history.search(200, 1)
+
+
+UNITS = [WriterUnit(), RefreshUnit(), SeekTellUnit()]
